@@ -567,6 +567,9 @@ def all_event_names():
     return ev
 
 
+_ALPHABET = frozenset(all_event_names())
+
+
 # ---------------------------------------------------------------------------
 # class-dictionary state of the public loaders
 # ---------------------------------------------------------------------------
@@ -845,6 +848,8 @@ class Env(object):
     def legal(self, name):
         p = name.split(':')
         k = p[0]
+        if len(p) < 2 or name not in _ALPHABET:
+            return False
         if k == 'new':
             return p[1] in TABLES and p[1] not in self.tables
         if k.startswith('pub.'):
@@ -1139,10 +1144,11 @@ class Env(object):
                            symptom='EXC:' + type(exc).__name__, traceback=traceback.format_exc()[-600:])
             return
         self._check_formula_atoms(T, k, T, f)
+        if not (self.comparable(T, 'mass') and self.comparable(T, 'density')):
+            return      # counts of a mixture string and the mass depend on T's (mutated) masses and densities
         self.counts['private_parse_comparisons'] += 1
-        want = self.canon['events']['pub.parse:%d' % k]
-        got = safe(lambda: _formula_value(f, with_mass=self.comparable(T, 'mass')))
-        ref = want if self.comparable(T, 'mass') else (want[0], None)
+        ref = self.canon['events']['pub.parse:%d' % k]
+        got = safe(lambda: _formula_value(f))
         if got != ref:
             self.violation('private-fresh', 'b', T, 'mass',
                            'formula(%r, table=%s) -> %s, public canonical %s' % (FORMULA_STRINGS[k], T, short(got, 60), short(ref, 60)),
@@ -1275,12 +1281,6 @@ class Env(object):
         return {'violations': self.viol, 'counts': dict(self.counts), 'early_inits': self.early_inits,
                 'late_inits': self.late_inits, 'transitions': self.transitions, 'skipped': self.skipped,
                 'heap_stats': self.heap_stats, 'harness': self.harness, 'pid': os.getpid()}
-
-
-def _all_lost_own_record(diffs):
-    """True when every entry that differs also lost its own neutron record (own_record True -> False)."""
-    lost = set(e for e, f, a, b in diffs if f == 'own_record' and a is False and b is True)
-    return bool(diffs) and all(e in lost for e, _, _, _ in diffs)
 
 
 def _group_of_attrs(attrs):
@@ -1657,8 +1657,3 @@ def signature(v):
     role = v['table'] if v['table'] in ('public',) or '+' in v['table'] else 'private'
     item = v['symptom'] if v['kind'] in ('shared-object', 'foreign-reference') else v.get('item', '')
     return (v['kind'], role, v['group'], item)
-
-
-def kind_signature(history):
-    """Event-kind signature of a history (used for evidence only)."""
-    return tuple(':'.join(e.split(':')[:1] + e.split(':')[2:3]) for e in history)
